@@ -418,6 +418,9 @@ package expr
 //@   ensures typed && refid.History == nil ==> res != nil && res.Value == camelS(fname[:len(fname) - 3]) + "/" + refid.Value
 //@   ensures typed && refid.History != nil ==> res != nil && res.Value == camelS(fname[:len(fname) - 3]) + "/" + refid.Value + "/_history/" + refid.History.Value
 //@   ensures refGet(ref) == nil ==> res == nil
+// C19: a weak (uri) reference reads back verbatim - so a strong reference and the weak one whose
+// uri is the relative form Type/id[/_history/v] of the same identity read back as the same string
+//@   ensures istype(refGet(ref), *dtpb.Reference_Uri) && unbox(refGet(ref), *dtpb.Reference_Uri) != nil && unbox(refGet(ref), *dtpb.Reference_Uri).Uri != nil ==> res != nil && res.Value == unbox(refGet(ref), *dtpb.Reference_Uri).Uri.Value
 //@   assigns nothing
 //
 // ---- C01/C03: a function call node hands the function a CLONE of the context --------------------
